@@ -42,7 +42,7 @@ T = {
          "The nine corpora in 4 modes x tld on/off: pure-ASCII addresses without quote/backslash in the local part get the same rc in all modes (6531 may say IDN error); accepted in 5321 => same rc in 822; x@D gives identical rc and flags in the three ASCII modes.",
          "No reference model is involved.", '4/C12'),
  'C13': ('model_checking', 'E-HIST', 'explicit-state BFS over API histories to a fixpoint, every transition a real library call',
-         "BFS over {rfc:=6 values, tld_check:=2, allow_tld:=3/4 masks, eav_setup, eav_is_email(8/16 addresses), eav_free;eav_init}, states = canonical serialisation of the whole eav_t + model variables, to the fixpoint (8k/21k states): every eav_is_email outcome (return, errcode, message, result record) equals a fresh object's with the confirmed mode and current settings; errstr stable; at most one live result record; eav_free releases everything; free+init == first init; every transition replayed under 2/4 poison fills of the object memory.",
+         "BFS over {rfc:=6 values, tld_check:=2, allow_tld:=3/4 masks, eav_setup, eav_is_email(8/16 addresses), eav_free;eav_init}, states = canonical serialisation of the whole eav_t + model variables, to the fixpoint (8k/21k states): every eav_is_email outcome (return, errcode, message, result record) equals a fresh object's with the confirmed mode and current settings; errstr stable; at most one live result record; eav_free releases everything; free+init == first init; every transition replayed under 2/4 poison fills of the object memory. A second search adds a second, independent eav_t validated in between (its calls must not change the first object, and vice versa).",
          "Two histories with the same canonical state have the same futures because the state contains every field the API reads (checked by the poison differential and by E-SCHED's constant digest of the library's static data).", '5/C13, 3.2'),
  'C14': ('model_checking', 'E-SCHED', 'controlled-scheduler exploration of all interleavings (state-caching DFS, preemption-bounded fall-back) + free-running TSan pass',
          "10 two-thread (thorough +4 three-thread) harnesses of real pthreads under a semaphore hand-off scheduler with scheduling points at every basic-block edge, every load/store of shared memory and every libc call of the library; state = (progress vector, digest of libeav's static data + shared input strings); DFS with a visited set covers all interleavings while the digest is constant, else iterative preemption bounding 0..2(3); oracle = every thread's observations equal the sequential run. The same bodies plus 2..16-thread validation loops run free under ThreadSanitizer.",
@@ -57,7 +57,7 @@ T = {
          "8 option builds loaded side by side; every corpus address, 4 modes x tld on/off; each build compared with the one having one option fewer (deltas compose): RFC20, UNDERSCORE, RFC5322 change exactly the documented decisions (reference-checked) and nothing else; is_6531_local == is_5322_local on pure-ASCII local parts in RFC5322 builds, malformed UTF-8 stays rejected; make -n shows the three -D flags exactly when requested and none by default.",
          "DC-3: RFC5322 builds on local parts mixing non-ASCII with control/whitespace are only required to reject malformed UTF-8.", '5/C17'),
  'C18': ('model_checking', 'E-HIST', 'lock-step explicit-state BFS over three backend builds + resource ledger',
-         "partial/idn and partial/idnkit are compiled unmodified against stub headers whose implementation forwards to the same libidn2 converter; the C13 search runs with the three objects advanced in lock-step (state = triple): equal outcome at every step; idnkit resolver-context ledger (<=1 live, never destroy/use dead, released by setup to an ASCII mode and by eav_free); a second search on the idnkit build alone with idn_resconf_create / initialize failures as transitions.",
+         "partial/idn and partial/idnkit are compiled unmodified against stub headers whose implementation forwards to the same libidn2 converter; the C13 search runs with the three objects advanced in lock-step (state = triple): equal outcome at every step; idnkit resolver-context ledger (<=1 live, never destroy/use dead, released by setup to an ASCII mode and by eav_free); a second search on the idnkit build alone with idn_resconf_create / initialize failures as transitions; the corpora (table rows, IDN products, token odometers, byte sweeps) through the three builds side by side, outcome strings compared.",
          "What the real libidn / idnkit would convert differently is out of scope ('given equivalent IDN conversions').", '5/C18'),
  'C19': ('fault_enumeration', 'E-HIST', 'explicit-state BFS with environment-fault transitions + exhaustive single/double fault runs',
          "The conversion call is interposed (-Wl,--wrap=idn2_to_ascii_8z): the C13 search with transitions carrying any of 31 libidn2 codes x {no output buffer, buffer allocated} (<=2 faults per history), plus runs of n=1..8 (50) validations with a single fault at every position x every code x both buffer modes and all double faults for n<=6 over 6 codes: faulted call rejected with EEAV_IDN_ERROR, idn_rc, the library's message, no flag; ledger: no leak, no double free; the next call equals a fresh object's.",
